@@ -238,6 +238,10 @@ func CheckEpochs(c *core.Ctx, d1 *lref.DAG, desc string, sealFrame int, kind str
 		return
 	}
 	c.Count("epoch_scenarios_sealed", 1)
+	if c.Get("epoch_scenarios_sealed")%200 == 1 {
+		c.Sample(map[string]interface{}{"epoch1_dag": d1.String(), "family": desc, "seal_frame": sealFrame, "next_validators": kind, "next_weights": w2.W,
+			"shortest_sealing_order": sealPathShort, "longest_sealing_order": sealPathLong, "reset_from_mid_epoch_after": midPath})
+	}
 
 	// ---- epoch 2 from several starting points
 	type start struct {
